@@ -25,7 +25,7 @@ from ..mutate import mutate, remove_stmts, replace_expr, replace_stmt, parse_stm
 from ..model import AnalysisError
 from .. import x_sre
 from ..x_emit import emissions, PH
-from ..x_valuewalk import branch_flag, iter_order, always_raises, noreturn_cfg, walk, value_oracle, single_assignment, dict_literal, const_collection
+from ..x_valuewalk import alias_expand, xdotted, xunparse, branch_flag, iter_order, always_raises, noreturn_cfg, walk, value_oracle, single_assignment, dict_literal, const_collection
 
 TECHNIQUE = "per-operator constant-folded walk of the directive dispatch on the CFG + exception-class closure + emitted-line event ordering + regex-AST class check + exhaustive evaluation of the extracted whitespace-substitution pipeline over all whitespace runs up to length 4 (class representatives; regex semantics = stdlib re, tornado is not executed)"
 EXPLANATION = (
@@ -140,6 +140,19 @@ class ParseCtx:
         if transfer is None:
             self._reach[key] = res
         return res
+
+    def resolve_under(self, v, e, at):
+        """Expression ``e`` at node ``at`` with local names replaced by the value of their unique assignment
+        reached under operator ``v`` (follows `x = op` / `x = None` / `x = in_loop` temporaries)."""
+        hops = 0
+        while isinstance(e, ast.Name) and e.id not in (self.op, self.in_loop, self.in_block, self.reader, self.template) and hops < 4:
+            r = self.reach(v)
+            defs = [self.cfg.nodes[i] for i in r if self.cfg.nodes[i].kind == "stmt" and isinstance(self.cfg.nodes[i].ast, (ast.Assign, ast.AnnAssign)) and e.id in q.assigned_paths(self.cfg.nodes[i].ast) and self.in_dispatch(self.cfg.nodes[i]) and self.cfg.nodes[i].ast.value is not None]
+            if len(defs) != 1:
+                break
+            e = defs[0].ast.value
+            hops += 1
+        return e
 
     def ctor_calls(self, v):
         """(cfg node, constructor call, class name) for node constructions reached under operator v."""
@@ -378,6 +391,12 @@ def _site_protected(ck, px, caller, call, helper, r, cls):
 # R2 error position
 
 
+def _assigned_before_all(cfg, fn, name, stores):
+    """the single assignment of ``name`` dominates every node in ``stores`` (its value was captured before them)"""
+    defs = cfg.stmt_nodes(lambda n: n.kind == "stmt" and isinstance(n.ast, (ast.Assign, ast.AnnAssign)) and name in q.assigned_paths(n.ast))
+    return len(defs) == 1 and all(cfg.dominates(defs[0], s_) for s_ in stores)
+
+
 def rule_error_line(ck, px):
     rid = "C19.error-line"
     rpe = px.rpe
@@ -425,21 +444,27 @@ def rule_error_line(ck, px):
     facts = must_facts(cfg, gen_node=gen, cond_facts=False)
     pos_stores = cfg.stmt_nodes(lambda n: n.kind == "stmt" and "self.pos" in q.assigned_paths(n.ast))
     ck.floor(rid, len(pos_stores), 1, "stores to self.pos in consume")
+    direct = any(any(q.dotted(x) == "self.pos" for x in ast.walk(u.ast.value)) or any(isinstance(x, ast.Name) and single_assignment(cons.node, x.id) is not None and any(q.dotted(y) == "self.pos" for y in ast.walk(single_assignment(cons.node, x.id))) and not _assigned_before_all(cfg, cons.node, x.id, pos_stores) for x in ast.walk(u.ast.value)) for u in cfg.stmt_nodes(is_line_update))
     for n in pos_stores:
-        ck.ob(rid, cons, n.ast, ("@line", True) in facts[n.id], "self.line is advanced by the newlines of the consumed span before self.pos moves")
+        if direct:
+            ck.ob(rid, cons, n.ast, ("@line", True) in facts[n.id], "self.line is advanced by the newlines of the consumed span before self.pos moves")
+        else:
+            upd = cfg.stmt_nodes(is_line_update)
+            ck.ob(rid, cons, n.ast, bool(upd) and all(cfg.postdominates(u, cfg.entry) for u in upd), "self.line is advanced by the newlines of the consumed span (bounds captured in locals before self.pos moves) on every path")
     for n in cfg.stmt_nodes(is_line_update):
         c = [c for c in q.calls(n.ast.value) if isinstance(c.func, ast.Attribute) and c.func.attr == "count"][0]
-        recv = q.dotted(c.func.value)
+        fn = cons.node
+        recv = xdotted(fn, c.func.value)
+        newpos = [s_ for s_ in pos_stores if isinstance(s_.ast, ast.Assign)]
+        want_hi = xunparse(fn, newpos[0].ast.value) if newpos else None
         if recv == "self.text":
             # bounds: exactly the consumed span [self.pos, <new position>)
-            newpos = [s for s in pos_stores if isinstance(s.ast, ast.Assign)]
-            want_hi = q.unparse(newpos[0].ast.value) if newpos else None
-            ok = len(c.args) == 3 and q.dotted(c.args[1]) == "self.pos" and q.unparse(c.args[2]) == want_hi
+            ok = len(c.args) == 3 and xdotted(fn, c.args[1]) == "self.pos" and xunparse(fn, c.args[2]) == want_hi
             ck.ob(rid, cons, c, ok, "newlines are counted in [self.pos, new position) of self.text")
         else:
             # counted on the consumed slice itself
-            sl = single_assignment(cons.node, recv) if recv else None
-            ok = isinstance(sl, ast.Subscript) and q.dotted(sl.value) == "self.text" and isinstance(sl.slice, ast.Slice) and q.dotted(sl.slice.lower) == "self.pos" and len(c.args) == 1
+            sl = alias_expand(fn, c.func.value)
+            ok = isinstance(sl, ast.Subscript) and q.dotted(sl.value) == "self.text" and isinstance(sl.slice, ast.Slice) and q.dotted(sl.slice.lower) == "self.pos" and q.unparse(sl.slice.upper) == want_hi and len(c.args) == 1
             ck.ob(rid, cons, c, bool(ok), "newlines are counted on the consumed slice self.text[self.pos:new position]")
     # every parse error site in _parse goes through the reader (so that the line is the reader's)
     ck.ob(rid, px.fi, px.fi.node, not [n for n in q.walk_body(px.fi.node) if isinstance(n, ast.Raise)], "_parse reports errors only through reader.%s (no direct raise)" % rpe.name, construct="direct raise in _parse")
@@ -584,6 +609,12 @@ def rule_recursion_scope(ck, px):
                 bound = {params[i]: a for i, a in enumerate(c.args) if i < len(params)}
                 bound.update({k.arg: k.value for k in c.keywords})
                 ck.ob(rid, px.fi, c, q.dotted(bound.get(px.reader)) == px.reader and q.dotted(bound.get(px.template)) == px.template, "operator %r: the recursion parses the same reader for the same template" % v, construct="operator=%s reader/template" % v)
+                for k_ in list(bound):
+                    bound[k_] = px.resolve_under(v, bound[k_], n)
+                for k_ in (px.in_block, px.in_loop):
+                    x_ = bound.get(k_)
+                    if x_ is not None and not isinstance(x_, ast.Constant) and q.dotted(x_) not in (px.op, px.in_loop, px.in_block):
+                        raise AnalysisError("_parse: argument %s of the recursive call is not resolved to the operator / loop marker / a constant: %s" % (k_, q.unparse(x_)))
                 ib = bound.get(px.in_block)
                 ck.ob(rid, px.fi, c, q.dotted(ib) == px.op or q.is_const(ib, v) if ib is not None else False, "operator %r: the nested body is parsed with the opening operator as its enclosing block" % v, construct="operator=%s in_block" % v)
                 il = bound.get(px.in_loop)
@@ -696,14 +727,32 @@ def rule_text_fidelity(ck, px):
         for en in tg.cfg.nodes_for(e.call):
             for facts_, filtered in sorted(seen.get(en.id, ()), key=repr):
                 ck.ob(rid, tg, e.call, filtered or (pre_t, True) in facts_, "text is emitted filtered, except text containing '<pre>' (filtered=%s, pre-known=%s)" % (filtered, (pre_t, True) in facts_), construct="emit filtered=%s pre=%s" % (filtered, (pre_t, True) in facts_))
-        pm_ = q.parent_map(tg.node)
-        for a_ in q.ancestors(pm_, e.call):
-            if isinstance(a_, ast.If) and any(e.call is x for st_ in a_.body for x in ast.walk(st_)):
-                t_ = a_.test
-                okt = q.dotted(t_) == var or q.unparse(t_) in ("len(%s) > 0" % var, "%s != ''" % var, "len(%s)" % var)
-                if not okt and not any(isinstance(x, ast.Call) for x in ast.walk(t_)):
-                    raise AnalysisError("_Text.generate: emission guard not understood: %s" % q.unparse(t_))
-                ck.ob(rid, tg, a_.test, okt, "only empty text is suppressed (whitespace-only text is still output)")
+        # tests that decide whether the emission happens at all (one branch cannot reach it)
+        cfg_ = tg.cfg
+        em_nodes = {n_.id for n_ in cfg_.nodes_for(e.call)}
+
+        def reach_from(nid):
+            seen_, st_ = set(), [nid]
+            while st_:
+                x_ = st_.pop()
+                if x_ in seen_:
+                    continue
+                seen_.add(x_)
+                st_.extend(y_ for y_, k_ in cfg_.succ[x_] if k_ != "exc")
+            return bool(seen_ & em_nodes)
+
+        for t_ in cfg_.stmt_nodes(lambda n_: n_.kind == "test"):
+            br = {k_: reach_from(y_) for y_, k_ in cfg_.succ[t_.id] if k_ in ("true", "false")}
+            if len(br) == 2 and br["true"] != br["false"]:
+                te = alias_expand(tg.node, t_.ast)
+                truthy_emits = br["true"]
+                txt = q.unparse(te)
+                okt = (txt == var and truthy_emits) or (txt in ("len(%s) > 0" % var, "%s != ''" % var, "len(%s)" % var) and truthy_emits) or (txt in ("len(%s) == 0" % var, "%s == ''" % var) and not truthy_emits)
+                if not okt:
+                    meths = [c_ for c_ in ast.walk(te) if isinstance(c_, ast.Call) and isinstance(c_.func, ast.Attribute) and c_.func.attr in STR_TRANSFORMS | {"isspace"} and var in q.names_in(c_)]
+                    if not meths:
+                        raise AnalysisError("_Text.generate: emission guard not understood: %s" % txt)
+                ck.ob(rid, tg, t_.ast, okt, "only empty text is suppressed (whitespace-only text is still output)")
     tinit_st = [s for s in q.stores_to(tinit.node, "self.whitespace")]
     ck.ob(rid, tinit, tinit.node, len(tinit_st) == 1 and q.dotted(tinit_st[0].value) == ws_param[0], "_Text stores the mode it was constructed with", construct="self.whitespace = %s" % ws_param[0])
 
@@ -715,31 +764,22 @@ def rule_text_fidelity(ck, px):
     mode, text = fp
     acc = accepted_literals(ck, fw, mode)
     ck.floor(rid, len(acc), 3, "accepted whitespace modes")
-    ws_chars = [chr(i) for i in range(0, 0x250)] + [" ", "　", "€"]
+    ws_chars = [chr(i) for i in range(0, 0x250)] + [" ", "　", "€"]
     for v in sorted(acc):
-        r = walk(fw.cfg, [(fw.cfg.entry.id, 0)], lambda n, val: val, decide=value_oracle(fw.node, mode, v))
-        subs = []
-        for nid in sorted(r):
-            n = fw.cfg.nodes[nid]
-            if n.kind == "stmt":
-                subs += [(n, c) for c in q.calls(n.ast) if q.is_call(c, "re.sub")]
-        if v == "all":
-            rets = [fw.cfg.nodes[i] for i in r if fw.cfg.nodes[i].kind == "stmt" and isinstance(fw.cfg.nodes[i].ast, ast.Return)]
-            assigned = [fw.cfg.nodes[i] for i in r if fw.cfg.nodes[i].kind == "stmt" and text in q.assigned_paths(fw.cfg.nodes[i].ast)]
-            ck.ob(rid, fw, fw.node, bool(rets) and all(q.dotted(x.ast.value) == text for x in rets) and not assigned and not subs, "mode 'all' returns the text argument unmodified", construct="mode=all identity")
+        ops = ws_pipeline(ck, fw, mode, text, v)
+        if ops is None:
             continue
-        ck.ob(rid, fw, fw.node, len(subs) >= 1, "mode %r filters with re.sub" % v, construct="mode=%s filters" % v)
-        for n, c in subs:
-            if len(c.args) < 3:
-                raise AnalysisError("re.sub call shape not understood: %s" % q.unparse(c))
-            pat = x_sre.pattern_constant(c.args[0])
-            flags = x_sre.flag_value(q.kwarg(c, "flags") or (c.args[4] if len(c.args) > 4 else None))
+        if v == "all":
+            ck.ob(rid, fw, fw.node, not ops, "mode 'all' returns the text argument unmodified%s" % ("" if not ops else " (applies %s)" % [o[0] if o[0] == "method" else o[1] for o in ops]), construct="mode=all identity")
+            continue
+        if any(o[0] == "method" for o in ops):
+            raise AnalysisError("filter_whitespace(%r): string method %s in the filter pipeline is not modelled" % (v, [o[1] for o in ops if o[0] == "method"]))
+        ck.ob(rid, fw, fw.node, len(ops) >= 1, "mode %r filters by regular-expression substitution" % v, construct="mode=%s filters" % v)
+        for _k, pat, flags, rep, c in ops:
             tree = x_sre.parse(pat, flags)
             w = x_sre.every_atom(tree, lambda ch: ch.isspace(), ws_chars, dotall=bool(flags & 16))
             ck.ob(rid, fw, c, w is None, "mode %r: the pattern %r matches whitespace only%s" % (v, pat, "" if w is None else " (can match %r)" % w))
-            rep = c.args[1]
-            ck.ob(rid, fw, c, isinstance(rep, ast.Constant) and isinstance(rep.value, str) and len(rep.value) == 1 and rep.value.isspace(), "mode %r: a whitespace run is replaced by a single whitespace character" % v, construct="mode=%s replacement %s" % (v, q.unparse(rep)))
-            ck.ob(rid, fw, c, q.dotted(c.args[2]) == text and len(c.args) == 3 and not q.kwarg(c, "count"), "mode %r: the substitution runs over the whole text" % v, construct="mode=%s subject %s" % (v, q.unparse(c.args[2])))
+            ck.ob(rid, fw, c, len(rep) == 1 and rep.isspace(), "mode %r: a whitespace run is replaced by a single whitespace character" % v, construct="mode=%s replacement %r" % (v, rep))
     rule_ws_runs(ck, fw, mode, text, acc)
 
 
@@ -747,38 +787,59 @@ WS_ALPHABET = [" ", "\t", "\n", "\r", "\f", "\v", "\x85", "\xa0"]  # representat
 WS_MAXLEN = 4
 
 
-def _sub_op(ck, fw, call, text):
-    """(pattern, flags, replacement) when ``call`` is re.sub(<const>, <const>, text) or <module regex>.sub(<const>, text)."""
+STR_TRANSFORMS = {"strip", "lstrip", "rstrip", "lower", "upper", "replace", "expandtabs", "title", "swapcase", "casefold", "translate", "capitalize", "removeprefix", "removesuffix"}
+
+
+def _expr_ops(fw, e, env):
+    """Substitution pipeline denoted by expression ``e`` relative to the function's text argument: a list of
+    ('sub', pattern, flags, replacement, call) / ('method', name, call); None when ``e`` does not involve the text."""
     m = fw.module
-    if q.is_call(call, "re.sub") and len(call.args) == 3 and q.dotted(call.args[2]) == text and not q.kwarg(call, "count"):
-        pat = x_sre.pattern_constant(call.args[0])
-        flags = x_sre.flag_value(q.kwarg(call, "flags"))
-        rep = call.args[1]
-    elif isinstance(call.func, ast.Attribute) and call.func.attr == "sub" and isinstance(call.func.value, ast.Name) and call.func.value.id in m.assigns and len(call.args) == 2 and q.dotted(call.args[1]) == text:
-        rc = m.assigns[call.func.value.id]
-        if not (q.is_call(rc, "re.compile") and rc.args):
+    if isinstance(e, ast.Name):
+        return env.get(e.id)
+    if not isinstance(e, ast.Call):
+        if any(isinstance(x, ast.Name) and x.id in env for x in ast.walk(e)):
+            raise AnalysisError("filter_whitespace: expression on the text not understood: %s" % q.unparse(e))
+        return None
+    subject = rep = None
+    pf = None
+    if q.is_call(e, "re.sub") and len(e.args) >= 3:
+        if len(e.args) > 3 or q.kwarg(e, "count"):
+            raise AnalysisError("filter_whitespace: substitution with a count is not modelled")
+        pf = (x_sre.pattern_constant(e.args[0], module=m), x_sre.flag_value(q.kwarg(e, "flags")))
+        rep, subject = e.args[1], e.args[2]
+    elif isinstance(e.func, ast.Attribute) and e.func.attr == "sub" and x_sre.compiled_constant(m, e.func.value) is not None and len(e.args) == 2:
+        pf = x_sre.compiled_constant(m, e.func.value)
+        rep, subject = e.args[0], e.args[1]
+    elif isinstance(e.func, ast.Attribute) and e.func.attr in STR_TRANSFORMS:
+        base = _expr_ops(fw, e.func.value, env)
+        if base is None:
             return None
-        pat = x_sre.pattern_constant(rc.args[0])
-        flags = x_sre.flag_value(q.kwarg(rc, "flags") or (rc.args[1] if len(rc.args) > 1 else None))
-        rep = call.args[0]
+        return base + [("method", e.func.attr, e)]
     else:
+        if any(isinstance(x, ast.Name) and x.id in env for x in ast.walk(e)):
+            raise AnalysisError("filter_whitespace: call on the text not understood: %s" % q.unparse(e))
         return None
+    base = _expr_ops(fw, subject, env)
+    if base is None:
+        raise AnalysisError("filter_whitespace: substitution over something that is not the text: %s" % q.unparse(e))
+    if isinstance(rep, ast.Name) and rep.id in m.assigns:
+        rep = m.assigns[rep.id]
     if not (isinstance(rep, ast.Constant) and isinstance(rep.value, str)) or "\\" in rep.value:
-        return None
-    return pat, flags, rep.value
+        raise AnalysisError("filter_whitespace: replacement is not a plain string constant: %s" % q.unparse(rep))
+    return base + [("sub", pf[0], pf[1], rep.value, e)]
 
 
 def ws_pipeline(ck, fw, mode, text, v):
-    """The straight-line sequence of substitutions that filter_whitespace applies to its text for mode ``v``
-    (tests on the mode folded).  Anything else that touches the text is an unknown idiom."""
+    """The sequence of substitutions that filter_whitespace applies to its text argument for mode ``v`` (tests
+    on the mode folded, locals followed).  None if the mode is rejected.  Anything not understood -> AnalysisError."""
     cfg = fw.cfg
     decide = value_oracle(fw.node, mode, v)
-    ops = []
+    env = {text: []}
     n = cfg.entry
     steps = 0
     while True:
         steps += 1
-        if steps > 200:
+        if steps > 300:
             raise AnalysisError("filter_whitespace(%r): path does not terminate" % v)
         if n.kind == "exit":
             raise AnalysisError("filter_whitespace(%r) falls off the end" % v)
@@ -791,20 +852,24 @@ def ws_pipeline(ck, fw, mode, text, v):
         elif n.kind == "stmt":
             st = n.ast
             if isinstance(st, ast.Return):
-                e = st.value
-                if q.dotted(e) == text:
-                    return ops
-                op = _sub_op(ck, fw, e, text) if isinstance(e, ast.Call) else None
-                if op is None:
-                    raise AnalysisError("filter_whitespace(%r): returned expression not understood: %s" % (v, q.unparse(e)))
-                return ops + [op]
+                ops = _expr_ops(fw, st.value, env) if st.value is not None else None
+                if ops is None:
+                    raise AnalysisError("filter_whitespace(%r): returned value is not derived from the text: %s" % (v, q.unparse(st)))
+                return ops
             if isinstance(st, ast.Raise):
                 return None
-            if text in q.assigned_paths(st) or text in q.names_in(st):
-                op = _sub_op(ck, fw, st.value, text) if isinstance(st, ast.Assign) and isinstance(st.value, ast.Call) and q.assigned_paths(st) == {text} else None
-                if op is None:
+            if isinstance(st, (ast.Assign, ast.AnnAssign)) and st.value is not None:
+                tg = st.targets if isinstance(st, ast.Assign) else [st.target]
+                if len(tg) == 1 and isinstance(tg[0], ast.Name):
+                    ops = _expr_ops(fw, st.value, env)
+                    if ops is None:
+                        env.pop(tg[0].id, None)
+                    else:
+                        env[tg[0].id] = ops
+                elif any(isinstance(x, ast.Name) and x.id in env for x in ast.walk(st)):
                     raise AnalysisError("filter_whitespace(%r): statement on the text not understood: %s" % (v, q.unparse(st)))
-                ops.append(op)
+            elif any(isinstance(x, ast.Name) and x.id in env for x in ast.walk(st)) and not isinstance(st, (ast.Expr,)):
+                raise AnalysisError("filter_whitespace(%r): statement on the text not understood: %s" % (v, q.unparse(st)))
         if len(nxt) != 1:
             raise AnalysisError("filter_whitespace(%r): control flow not straight-line at %r" % (v, n))
         n = nxt[0][0]
@@ -822,15 +887,14 @@ def rule_ws_runs(ck, fw, mode, text, acc):
     rid = "C19.ws-runs"
     runs = ["".join(t) for k in range(1, WS_MAXLEN + 1) for t in itertools.product(WS_ALPHABET, repeat=k)]
     for v in sorted(acc):
-        try:
-            ops = ws_pipeline(ck, fw, mode, text, v)
-        except AnalysisError as e:
-            if any(x.rule == "C19.text-fidelity" and x.func == fw.qualname for x in ck.violations):
-                ck.note("mode %r not evaluated on runs (%s); the structural rule already reports this function" % (v, e))
-                continue
-            raise
+        ops = ws_pipeline(ck, fw, mode, text, v)
         if ops is None:
             continue
+        if any(o[0] == "method" for o in ops):
+            if v == "all":
+                continue  # reported by the identity obligation
+            raise AnalysisError("filter_whitespace(%r): string method in the filter pipeline is not modelled" % v)
+        ops = [(o[1], o[2], o[3]) for o in ops]
         for pat, flags, rep in ops:
             tree = x_sre.parse(pat, flags)
             zero_width = [op for op, av in _all_items(tree) if op in (x_sre._OP["AT"], x_sre._OP["ASSERT"], x_sre._OP["ASSERT_NOT"], x_sre._OP["GROUPREF"])]
@@ -1088,7 +1152,7 @@ def rule_gen_structure(ck, px):
             n_blocks += 1
             # a clause header of an enclosing compound statement: one level out, after a `pass`
             for e in explicit_indent:
-                ind = e.call.args[2] if len(e.call.args) >= 3 else q.kwarg(e.call, "indent")
+                ind = alias_expand(g.node, e.call.args[2] if len(e.call.args) >= 3 else q.kwarg(e.call, "indent"))
                 oki = isinstance(ind, ast.BinOp) and isinstance(ind.op, ast.Sub) and q.is_const(ind.right, 1) and isinstance(ind.left, ast.Call) and q.dotted(ind.left.func) == w + ".indent_size"
                 ck.ob(rid, g, e.call, bool(oki), "an intermediate clause header is emitted one indentation level outside the current suite")
                 ps = [x for x in ems if x.template.strip() == "pass"]
